@@ -1024,39 +1024,39 @@ func fullTagAppend(bi, b *blockPointer, offset int) {
 		return
 	}
 
-	tagFamilyMap := make(map[string]*columnFamily)
+	// Index by position, not by pointer: appending a tag family or a column below may
+	// reallocate the backing array and leave pointers into the old one behind.
+	tagFamilyIdx := make(map[string]int)
 	for i := range bi.tagFamilies {
-		tagFamilyMap[bi.tagFamilies[i].name] = &bi.tagFamilies[i]
+		tagFamilyIdx[bi.tagFamilies[i].name] = i
 	}
 
 	for _, tf := range b.tagFamilies {
-		if existingTagFamily, exists := tagFamilyMap[tf.name]; exists {
-			columnMap := make(map[string]*column)
-			for i := range existingTagFamily.columns {
-				columnMap[existingTagFamily.columns[i].name] = &existingTagFamily.columns[i]
+		if fi, exists := tagFamilyIdx[tf.name]; exists {
+			columnIdx := make(map[string]int)
+			for i := range bi.tagFamilies[fi].columns {
+				columnIdx[bi.tagFamilies[fi].columns[i].name] = i
 			}
 
 			for _, c := range tf.columns {
-				if existingColumn, exists := columnMap[c.name]; exists {
-					assertIdxAndOffset(c.name, len(c.values), b.idx, offset)
-					existingColumn.values = append(existingColumn.values, c.values[b.idx:offset]...)
+				assertIdxAndOffset(c.name, len(c.values), b.idx, offset)
+				if ci, exists := columnIdx[c.name]; exists {
+					bi.tagFamilies[fi].columns[ci].values = append(bi.tagFamilies[fi].columns[ci].values, c.values[b.idx:offset]...)
 				} else {
-					assertIdxAndOffset(c.name, len(c.values), b.idx, offset)
 					col := column{name: c.name, valueType: c.valueType}
 					for j := 0; j < existDataSize; j++ {
 						col.values = append(col.values, nil)
 					}
 					col.values = append(col.values, c.values[b.idx:offset]...)
-					existingTagFamily.columns = append(existingTagFamily.columns, col)
+					bi.tagFamilies[fi].columns = append(bi.tagFamilies[fi].columns, col)
 				}
 			}
 		} else {
 			appendTagFamilies(tf)
 		}
 	}
-	for k := range tagFamilyMap {
-		delete(tagFamilyMap, k)
-	}
+	// b is only read from here on, so pointers into its (unchanged) slices stay valid.
+	tagFamilyMap := make(map[string]*columnFamily, len(b.tagFamilies))
 	for i := range b.tagFamilies {
 		tagFamilyMap[b.tagFamilies[i].name] = &b.tagFamilies[i]
 	}
@@ -1116,22 +1116,21 @@ func fullFieldAppend(bi, b *blockPointer, offset int) {
 		return
 	}
 
-	fieldMap := make(map[string]*column)
+	// Index by position: appendFields may reallocate bi.field.columns.
+	fieldIdx := make(map[string]int)
 	for i := range bi.field.columns {
-		fieldMap[bi.field.columns[i].name] = &bi.field.columns[i]
+		fieldIdx[bi.field.columns[i].name] = i
 	}
 
 	for _, c := range b.field.columns {
-		if existingField, exists := fieldMap[c.name]; exists {
+		if fi, exists := fieldIdx[c.name]; exists {
 			assertIdxAndOffset(c.name, len(c.values), b.idx, offset)
-			existingField.values = append(existingField.values, c.values[b.idx:offset]...)
+			bi.field.columns[fi].values = append(bi.field.columns[fi].values, c.values[b.idx:offset]...)
 		} else {
 			appendFields(c)
 		}
 	}
-	for k := range fieldMap {
-		delete(fieldMap, k)
-	}
+	fieldMap := make(map[string]*column, len(b.field.columns))
 	for i := range b.field.columns {
 		fieldMap[b.field.columns[i].name] = &b.field.columns[i]
 	}
